@@ -99,8 +99,24 @@ class GeneratorPool:
         return (f(x) for x in xs)
 
 
+class SizedPool(ReversedPool):
+    """a pool-like object that advertises its number of workers the way multiprocessing / schwimmbad / executor pools do
+    (a dispatch that splits work per worker must still evaluate — and count — exactly the requested points)"""
+    size = 5
+    _processes = 5
+    _max_workers = 5
+
+
+def _thread_pool():
+    from multiprocessing.pool import ThreadPool
+    return ThreadPool(3)
+
+
 STRATEGIES = {
     "scalar": dict(vectorize=False, pool=None),
+    "vector+sized": dict(vectorize=True, pool=SizedPool),
+    "vector+threadpool": dict(vectorize=True, pool=_thread_pool),
+    "sized": dict(vectorize=False, pool=SizedPool),
     "vector": dict(vectorize=True, pool=None),
     "pool=1": dict(vectorize=False, pool=1),
     "reversed": dict(vectorize=False, pool=ReversedPool),
@@ -115,7 +131,7 @@ def _run(strategy, kernel, blobs, seed, n_iter=None, n_total=48):
     st = STRATEGIES[strategy]
     like = CountingLike(blobs)
     pool = st["pool"]
-    if isinstance(pool, type):
+    if isinstance(pool, type) or callable(pool) and not hasattr(pool, "map"):
         pool = pool()
     s = Sampler(lambda u: 6.0 * u - 3.0, like.vector if st["vectorize"] else like.scalar, 2, n_particles=16,
                 clustering=False, sample=kernel, resample="mult", vectorize=st["vectorize"], pool=pool,
@@ -131,6 +147,8 @@ def _run(strategy, kernel, blobs, seed, n_iter=None, n_total=48):
             cur = s.sample()
             k += 1
             trace.append((float(cur["beta"]), int(cur["steps"]), int(cur["calls"]), like.n))
+    if hasattr(pool, "terminate"):
+        pool.terminate()
     st_ = s.state
     fp = common.digest([st_.get_history("u", flat=True).tobytes().hex(), st_.get_history("logl", flat=True).tobytes().hex(),
                         np.asarray(st_.get_history("beta")).tobytes().hex(), np.asarray(st_.get_history("logz")).tobytes().hex(),
@@ -141,7 +159,7 @@ def _run(strategy, kernel, blobs, seed, n_iter=None, n_total=48):
 def suite_dispatch(drv, tier):
     from tempest import Sampler
     c = Corr("dispatch-table", "exact")
-    pools = [("none", None), ("int:0", 0), ("int:1", 1), ("int:1", True), ("obj", ReversedPool()), ("obj", GeneratorPool())]
+    pools = [("none", None), ("int:0", 0), ("int:1", 1), ("int:1", True), ("obj", ReversedPool()), ("obj", GeneratorPool()), ("obj", SizedPool())]
     if tier == "thorough":
         pools.append(("int:2", 2))
     lines, impl = [], []
@@ -178,7 +196,7 @@ def transparency_violations(cases):
     for kernel, blobs, seed in cases:
         ref_fp, ref_trace = _run("scalar", kernel, blobs, seed)
         for name in STRATEGIES:
-            if name == "scalar" or (name == "vector" and blobs):
+            if name == "scalar" or (name.startswith("vector") and blobs):
                 continue
             try:
                 fp, tr = _run(name, kernel, blobs, seed)
@@ -274,7 +292,7 @@ def correspond(tier):
         cases += [(k, b, rng.randrange(2 ** 31)) for k in ("tpcn", "rwm") for b in (False, True) for _ in range(4)]
     for case in cases:
         for name in STRATEGIES:
-            if name != "scalar" and not (name == "vector" and case[1]):
+            if name != "scalar" and not (name.startswith("vector") and case[1]):
                 c.case((case, name), True)
                 c.count(name)
         for b in transparency_violations([case]):
@@ -283,9 +301,10 @@ def correspond(tier):
     out.append(c)
     c2 = Corr("call-accounting", "exact")
     ccases = [(n, k, b, rng.randrange(2 ** 31)) for n, k, b in
-              [("scalar", "tpcn", False), ("vector", "rwm", False), ("threaded", "tpcn", True), ("pool=1", "rwm", True), ("generator", "tpcn", False)]]
+              [("scalar", "tpcn", False), ("vector", "rwm", False), ("threaded", "tpcn", True), ("pool=1", "rwm", True), ("generator", "tpcn", False),
+               ("vector+sized", "tpcn", False), ("vector+threadpool", "rwm", False), ("sized", "rwm", True)]]
     if tier == "thorough":
-        ccases += [(n, k, b, rng.randrange(2 ** 31)) for n in STRATEGIES for k in ("tpcn", "rwm") for b in (False, True) if not (n == "vector" and b)]
+        ccases += [(n, k, b, rng.randrange(2 ** 31)) for n in STRATEGIES for k in ("tpcn", "rwm") for b in (False, True) if not (n.startswith("vector") and b)]
     calls_violations(drv, ccases, c2)
     out.append(c2)
     return out
@@ -294,7 +313,7 @@ def correspond(tier):
 def search(tier, hints):
     drv = common.Driver()
     rng = common.rng_for("C13.search")
-    found = calls_violations(drv, [(n, k, False, rng.randrange(2 ** 31)) for n in ("scalar", "vector", "reversed") for k in ("tpcn", "rwm")])
+    found = calls_violations(drv, [(n, k, False, rng.randrange(2 ** 31)) for n in ("scalar", "vector", "reversed", "vector+sized", "vector+threadpool") for k in ("tpcn", "rwm")])
     if len(found) < 3:
         found += transparency_violations([(k, b, rng.randrange(2 ** 31)) for k in ("tpcn", "rwm") for b in (False, True)])
     return found[:5]
